@@ -148,17 +148,49 @@ def cases(rng, tier):
         # no restart here: the failed round can leave its partly written output directory behind, and a restart
         # would list it as live (the known leftover-directory findings of C01/C11, not what this scenario is about)
         out.append(shardprop.mk_case("compact-read-fault", cfg, ntypes, nctx, ops))
+    # two lifetimes whose id generator reads the same milliseconds (a clock that was set back, or simply a restart
+    # within the millisecond: the generator starts from nothing, C18's known finding RestartReissuesIds): the two
+    # segments hold DIFFERENT events of one type and context under EQUAL event ids.  Selections de-duplicate by event
+    # id in the response writer, so they already hide one event of each pair before any compaction (C18's domain, not
+    # judged here); COUNT is computed before that and must count every stored event before and after every round
+    # and after a restart ("compaction changes layout, never content": the merge may not treat the id as a key)
+    for j in range(2 if tier == "quick" else 24):
+        cfg = dict(rng.choice(shardprop.CFGS)); cfg["segments_per_merge"] = 2
+        cap = cfg["fill_factor"] * cfg["event_per_zone"]
+        t0 = 1700000000000 + rng.below(10 ** 9)
+        ops = [("CLOCKMS", t0)] + [("S", 0, 0) for _ in range(cap)] + [("R",), ("CLOCKMS", t0)]
+        ops += [("S", 0, 0) for _ in range(cap)] + [("O",), ("C",), ("O",)]
+        if j % 2 == 1:
+            ops += [("C",), ("O",)]
+        ops += [("R",), ("O",)]
+        out.append(shardprop.mk_case("compact-reissued-ids", cfg, 1, 1, ops))
     return out
 
 
 run_sides = shardprop.run_sides
-same = shardprop.same
-diffs = shardprop.diffs
+
+
+def diffs(c, impl, model):
+    d = shardprop.diffs(c, impl, model)
+    if c["kind"] == "compact-reissued-ids":
+        # the model names events by their payload key; the engine's selections de-duplicate by the (colliding) event id
+        d = [x for x in d if not re.match(r"obs#\d+: (sel|rp)", x)]
+    return d
+
+
+def same(c, impl, model):
+    return not diffs(c, impl, model)
 
 
 def oracle(c, impl):
     """Answers must equal the acknowledged content before and after every round (and after restart)."""
     if impl.get("line") is None:
+        return None
+    if c["kind"] == "compact-reissued-ids":
+        for n, o in enumerate(impl["obs"]):
+            exp = len([k for (k, uu, cc) in o["acked"] if uu == 0])
+            if o["cnt0"] != exp:
+                return f"obs#{n} cnt0: COUNT {o['cnt0']} but {exp} events were stored (events of one context sharing an event id)"
         return None
     for n, o in enumerate(impl["obs"]):
         maybe = {k for (k, u, cc) in o["maybe"]}
